@@ -61,8 +61,10 @@ func vhSubjectDN() {
 		}
 		if i == 0 && vChoose("nonascii", 2) == 1 {
 			vals[i] = "Zoë K"
+		} else if i == 0 {
+			vals[i] = vValueString(vName("val", i), VL) // the long value (inner blanks, punctuation)
 		} else {
-			vals[i] = vValueString(vName("val", i), VL)
+			vals[i] = vValueString(vName("val", i), 1)
 		}
 		if i > 0 {
 			subject += ","
